@@ -1,6 +1,7 @@
 """Single source for MANIFEST.json (bin/mkmanifest)."""
 
-HOOK_COMMITS = ["be704c0"]   # filled by bin/mkmanifest callers: /repo commits that add guarded hooks
+HOOK_COMMITS = ["be704c0"]
+FIX_COMMITS = ["489cde8"]   # filled by bin/mkmanifest callers: /repo commits that add guarded hooks
 
 NOTES = ("All checks: bin/check <id>. Exit 0 = held, 1 = VIOLATION line + replay file, 2 = tool error (never a verdict). "
          "Specs under spec/<family>/, harness under harness/ (path deps on /repo; rebuilt by every check). "
@@ -37,6 +38,18 @@ CHECKS["C12"] = dict(engine="tlc+vh", level="model_checking", ref="4.5", techniq
 CHECKS["C13"] = dict(engine="tlc+vh", level="model_checking", ref="4.5", technique="TLA+ spec (Window.tla) model-checked with TLC; TLC behaviours replayed into sliding windows and engine programs; recorded emissions validated by TLC",
                      text="SlidingContent/SlidingTiming/SlidingCountShape/SlidingCountTiming are TLC invariants of the model and are evaluated by TLC on every recorded emission of the real sliding windows.",
                      note=WIN_NOTE)
+
+EXPR_NOTE = ("Trusted: TLC; the transcription Expr.tla is itself validated against the code on every case (model/impl mismatch counters in evidence). "
+             "Bounded: every expression with <= 2 leaves (+ unary wrappers) over the spec's leaf alphabet in 4 environments (thorough adds sampled 3-leaf trees).")
+CHECKS["C08"] = dict(engine="tlc+vh", level="model_checking", ref="4.4", technique="TLA+ spec (Expr.tla) with TLC invariant CmpMath/GeConsistent over an exhaustive expression builder; every case replayed into the evaluator, eval_binary_op and Engine (.where/.emit/sequence step)",
+                     text="TLC decides the transcribed comparison arms against the mathematical order for every operand pair in the bound; each enumerated comparison is executed by the real evaluator in four contexts and must equal the mathematical verdict.",
+                     note=EXPR_NOTE)
+CHECKS["C09"] = dict(engine="tlc+vh", level="model_checking", ref="4.4", technique="TLA+ spec (Expr.tla: AcceptWhere vs AcceptStep) enumerated by TLC; every filter case replayed as .where verdict and as a SaseEngine step; error-delta against the faithful transcription",
+                     text="TLC enumerates every filter expression of the bound; the real .where and step verdicts must agree except where the faithful transcription predicts exactly the recorded finding; any unpredicted disagreement is a violation.",
+                     note=EXPR_NOTE)
+CHECKS["C10"] = dict(engine="tlc+vh", level="model_checking", ref="4.4", technique="TLA+ spec (Expr.tla: Fold/FoldSound) enumerated by TLC; every case folded by optimize::fold_program and evaluated before/after, plus parse()->Engine end to end; error-delta against the faithful transcription",
+                     text="Every expression of the bound is evaluated unfolded and folded by the real code; differences must be exactly those the transcribed folder predicts (recorded finding), anything else is a violation.",
+                     note=EXPR_NOTE)
 
 NOT_APPLICABLE = {
     "C41": "parser totality over arbitrary strings: no state/transition system to specify; a TLA+ model would only enumerate token strings (fuzzing under another name)",
